@@ -317,7 +317,7 @@ func c20Exec(tk *c20Task, sc *c20Script, st c20Step, shared [][]byte, annexb [][
 			tk.f.FragEncMode = mp4.EncModeBoxTree
 		}
 		// the task's own output device: every Write is an I/O point; with arg >= 2 one write is refused
-		w := &c20FailWriter{dev: &c20Dev{tk: tk}, failAt: (st.arg >> 1) * 3}
+		w := &c20FailWriter{dev: &c20Dev{tk: tk}, failAt: st.arg >> 1}
 		err := tk.f.Encode(w)
 		out = append(hashOf(w.dev.buf), errStr(err)...)
 	case "refrag":
@@ -537,8 +537,8 @@ func c20DrawScript(t *sim.Tape, nInputs int, ins []c20Input) c20Script {
 			if t.Chance(300) {
 				sc.steps = append(sc.steps, c20Step{"refrag", t.Draw(4)})
 			} else {
-				// bit 0: box-tree mode; bits 1..: 0 = healthy device, k>0 = write 3k is refused
-				sc.steps = append(sc.steps, c20Step{"encode", t.Draw(2) | t.Draw(2)*t.Draw(4)<<1})
+				// bit 0: box-tree mode; bits 1..: 0 = healthy device, k>0 = write k is refused
+				sc.steps = append(sc.steps, c20Step{"encode", t.Draw(2) | t.Draw(2)*(1+t.Draw(48))<<1})
 			}
 		case 3:
 			sc.steps = append(sc.steps, c20Step{"encodeSW", 0})
@@ -793,7 +793,7 @@ func init() {
 		Assumptions: []string{"the box-decoder registry is not modified (excluded by the statement)", "in-place conversions (ConvertByteStreamToNaluSample etc.) are given private copies: they are documented as in place",
 			"slice-path decoding aliases the caller's buffer; scripts that then encrypt/decrypt in place are generated in a minority of runs and their effect on the shared input is the recorded finding", "race detector (ThreadSanitizer) with suppress_equal_stacks=0; it is a sound but not complete sensor: runtime-internal synchronisation (sync.Pool in fmt, atomics) can order two tasks and hide a race, so in a seeded third of the runs all pools are emptied (two GCs) before every step, the detector runs with history_size=7 (with the default history the previous access of a long-running task cannot be restored and the report is silently dropped), and replay/minimisation re-execute a tape up to 6 times"},
 		Real: realLib, Stub: []string{"caller scheduling (baton scheduler, tape-drawn)", "virtual time: none (library reads no clock)"}, RealNoFault: append([]string{"Go race detector runtime"}, realNoFault...),
-		Runs:        map[string]int{"quick": 1200, "thorough": 200000},
+		Runs:        map[string]int{"quick": 2000, "thorough": 200000},
 		HangBudget:  120e9,
 		Setup:       c20Setup,
 		Run:         c20Run,
